@@ -115,6 +115,10 @@ def make_service(box):
     class Svc(rpyc.Service):
         def exposed_throw(self):
             rv_c09_canary_raise_site(box)
+
+        def exposed_bounce(self, fn):
+            # the peer does not catch what the requester's own callback raises: the exception crosses the connection twice
+            return fn()
     return Svc
 
 
@@ -199,6 +203,9 @@ def run_matrix(ctx, rng, classes, per_class):
                             ctx.count("unconstructible_arg_tuples")
                             continue
                         one_case(ctx, pair, root, box, raised, snd, rcv)
+                        if rng.random() < .3 and type(raised).__module__ == "builtins" and not isinstance(raised, (SystemExit, KeyboardInterrupt, BaseExceptionGroup)):
+                            # (exception groups: the first crossing already fails - the listed known finding)
+                            second_hand_case(ctx, root, raised, type(raised), snd, rcv)
                         if rng.random() < .35 and not (issubclass(cls, StopIteration) and not args):
                             # (an argument-less StopIteration travels as the published one-integer short form: see ASSUMPTIONS)
                             # the same class again, this instance carrying data attributes of its own (set after construction,
@@ -237,6 +244,31 @@ def run_matrix(ctx, rng, classes, per_class):
             if pair.server_exc is not None:
                 ctx.violation("C09/server-died/%s" % type(pair.server_exc).__name__, "serving side died: %r" % (pair.server_exc,),
                               dict(snd=snd, rcv=rcv))
+
+
+def second_hand_case(ctx, root, raised, cls, snd, rcv):
+    """an exception that the peer itself received over the connection (raised by the requester's callback) and lets through:
+    it still has to surface as the same built-in class with the same arguments"""
+    def thrower():
+        raise raised
+    wit = dict(cls=cls.__name__, second_hand=True, sender=snd, receiver=rcv)
+    try:
+        root.bounce(thrower)
+        e = None
+    except BaseException as ex:
+        e = ex
+    ctx.count("second_hand_exceptions")
+    if e is None or isinstance(e, vnet.Stalled):
+        ctx.violation("C09/second-hand/no-exception/%s" % cls.__name__, "an exception raised by the requester's callback and not caught by the peer did not come back", wit)
+        return
+    if e is raised:
+        return       # (cannot happen over a connection; kept so that a harness slip is not mistaken for fidelity)
+    if not isinstance(e, cls) or type(e).__name__ != cls.__name__:
+        ctx.violation("C09/second-hand/class/%s" % cls.__name__, "raised %s in the requester's callback; after crossing the connection twice it surfaces as %s.%s "
+                      "(mro %s)" % (cls.__name__, type(e).__module__, type(e).__name__, [k.__name__ for k in type(e).__mro__][:4]), wit)
+        return
+    if not (issubclass(cls, StopIteration) and not raised.args) and rc.fingerprint(tuple(e.args)) != rc.fingerprint(normalise(normalise(raised.args))):
+        ctx.violation("C09/second-hand/args/%s" % cls.__name__, "arguments differ after two crossings: got %r" % (e.args,), wit)
 
 
 def one_case(ctx, pair, root, box, raised, snd, rcv, custom=None):
